@@ -4,6 +4,7 @@ import (
 	"encoding/json"
 	"fmt"
 	"strings"
+	"sync/atomic"
 	"time"
 
 	"verif/harness/internal/core"
@@ -28,6 +29,8 @@ type c09Batch struct {
 	family string
 	inputs []string
 }
+
+var c09HangFound int32
 
 const (
 	c09ScanMul = 64
@@ -287,6 +290,12 @@ func runC09Batch(c *core.Ctx, drv string, b c09Batch) {
 			// million times what parsing takes; only if it still does not
 			// finish is it a hang (the property is about hanging). Anything
 			// else stays inconclusive.
+			if atomic.LoadInt32(&c09HangFound) > 0 {
+				// one isolated witness is enough; do not spend minutes
+				// bisecting every other batch that hangs the same way
+				c.Count("batches_timed_out_after_a_hang_was_isolated", 1)
+				return
+			}
 			guilty := b.inputs
 			for len(guilty) > 1 {
 				half := guilty[:len(guilty)/2]
@@ -299,6 +308,7 @@ func runC09Batch(c *core.Ctx, drv string, b c09Batch) {
 				}
 			}
 			if _, to := c09Run(drv, dir, guilty, 60*time.Second); to {
+				atomic.StoreInt32(&c09HangFound, 1)
 				c.Violation("C09:hang", fmt.Sprintf("tokenise+parse of a %d-byte input did not finish within 60 s when run alone (family %s): %q", len(guilty[0]), b.family, clip(guilty[0], 300)),
 					map[string]interface{}{"family": b.family, "input": clip(guilty[0], 3000), "input_hex": fmt.Sprintf("%x", clip(guilty[0], 400)), "input_len": len(guilty[0])})
 			} else {
